@@ -19,3 +19,4 @@ impl MinOutputAdaCalculator {
     #[verifier::external_body] pub fn set_plutus_data(&mut self, data: &PlutusData) ensures *final(self) == (MinOutputAdaCalculator { output: TransactionOutput { plutus_data: Some(DataOption::Data(*data)), ..old(self).output }, ..*old(self) }) { unimplemented!() }
     #[verifier::external_body] pub fn set_script_ref(&mut self, script_ref: &ScriptRef) ensures *final(self) == (MinOutputAdaCalculator { output: TransactionOutput { script_ref: Some(*script_ref), ..old(self).output }, ..*old(self) }) { unimplemented!() }
 }
+clone_eq!(DataOption);
